@@ -35,4 +35,13 @@ theorem pin_par_Work_runner : Gen.C14.pin_par_Work_runner = "6b01f4e5287be4b9" :
 theorem pin_par_Work_init : Gen.C14.pin_par_Work_init = "4f02859d38cf9746" := by decide
 theorem pin_module_Versions_Max : Gen.C14.pin_module_Versions_Max = "08d5d658d9c458c1" := by decide
 
+theorem pin_modrequirements_readModGraph : Gen.C14.pin_modrequirements_Requirements_readModGraph = "df0a79d42396c97c" := by decide
+theorem pin_modrequirements_cueModSummary : Gen.C14.pin_modrequirements_Requirements_cueModSummary = "e2c55a394541410f" := by decide
+theorem pin_modrequirements_NewRequirements : Gen.C14.pin_modrequirements_NewRequirements = "d873cd55fff924b1" := by decide
+theorem pin_modrequirements_Graph : Gen.C14.pin_modrequirements_Requirements_Graph = "c1d156011aae530b" := by decide
+theorem pin_modrequirements_cmpVersion : Gen.C14.pin_modrequirements_cmpVersion = "0b033df76a48c581" := by decide
+theorem pin_par_NewQueue : Gen.C14.pin_par_NewQueue = "f89211cea39e8ea6" := by decide
+theorem pin_par_Queue_Add : Gen.C14.pin_par_Queue_Add = "b1793b1d2f696e9c" := by decide
+theorem pin_par_Queue_Idle : Gen.C14.pin_par_Queue_Idle = "f90cee8ecea242a1" := by decide
+
 end CueVerif.Bridge.C14
